@@ -138,6 +138,8 @@ fn materialise_and_open(k: &Value) -> Vec<(String, String)> {
                 }
                 let payload: Vec<u8> = match fp {
                     "xor" => vec![0, 0, 0x34, 0x12, 0x78, 0x56],
+                    // BIFF5 / BIFF7: the record is just key + hash (4 bytes), the stream is named "Book"
+                    "xor5" => vec![0x34, 0x12, 0x78, 0x56],
                     "rc4" => { let mut v = vec![1, 0, 1, 0, 1, 0]; v.extend_from_slice(&filler(48, 21)); v }
                     _ => { let mut v = vec![1, 0, 2, 0, 2, 0]; v.extend_from_slice(&filler(180, 22)); v }
                 };
@@ -158,6 +160,11 @@ fn materialise_and_open(k: &Value) -> Vec<(String, String)> {
                     }
                     pos += 4 + len;
                 }
+                if fp == "xor5" {
+                    // globals BOF of a BIFF5 workbook: vers = 0x0500
+                    s[4] = 0x00;
+                    s[5] = 0x05;
+                }
                 s.extend_from_slice(&ins);
                 s.extend_from_slice(&tail);
             } else if k["after_writeprotect"].as_bool().unwrap() {
@@ -166,7 +173,7 @@ fn materialise_and_open(k: &Value) -> Vec<(String, String)> {
                 s.extend_from_slice(&tail);
             }
             // keep the stream out of the mini stream like real files (>= 4096 bytes)
-            let bytes = crate::build::cfb::simple_cfb(&[("Workbook", &s)]);
+            let bytes = crate::build::cfb::simple_cfb(&[(if fp == "xor5" { "Book" } else { "Workbook" }, &s)]);
             out.push(("Xls".into(), oc_xls(&bytes)));
         }
         "ods" => {
@@ -246,7 +253,7 @@ pub fn drive(args: &Args) -> i32 {
         let size = [0usize, 1, 63, 64, 65, 4087, 4088, 4089, 5000, 70000][rng.gen_range(0..10)] + rng.gen_range(0..3);
         let info = ["standard", "agile"][rng.gen_range(0..2)];
         let content = ["xls", "vba"][rng.gen_range(0..2)];
-        let fp = ["none", "xor", "rc4", "cryptoapi"][rng.gen_range(0..4)];
+        let fp = ["none", "xor", "xor5", "rc4", "cryptoapi"][rng.gen_range(0..5)];
         let k = match rng.gen_range(0..4) {
             0 => json!({"kind": "ooxml", "size": size, "info": info, "layout": lay, "dataspaces": rng.gen_bool(0.5)}),
             1 => json!({"kind": "plaincfb", "content": content, "layout": lay}),
